@@ -45,9 +45,18 @@ def run(op, a):
             spk = inner
         tx = tx_from_val(tv, mutable=True)
         sigs = []
+        # a[9] >= 100: ask for unusually short DER signatures (r or s with leading zero bytes,
+        # about 1 in 100 of the library's signatures); OpenSSL's nonce is random, so re-sign
+        short = len(a) > 9 and isinstance(a[9], int) and a[9] >= 100
         for k, ht in zip(signers, hts):
             h = SignatureHash(inner, tx, idx, ht)
-            sigs.append(k.sign(h) + bytes([ht]))
+            der = k.sign(h)
+            if short:
+                for _ in range(600):
+                    if len(der) < 70:
+                        break
+                    der = k.sign(h)
+            sigs.append(der + bytes([ht]))
         if template == 0:
             parts = [sigs[0]]
         elif template == 1:
